@@ -11,6 +11,7 @@ fn main() {
         for s in sl.script_records() { let sc = s.script(sl.offset_data()).unwrap(); if let Some(Ok(d)) = sc.default_lang_sys() { print!(" script {} default-langsys features {:?}", s.script_tag(), d.feature_indices().iter().map(|i| i.get()).collect::<Vec<_>>()); } }
         if let Some(Ok(fv)) = gsub.feature_variations() {
             for rec in fv.feature_variation_records() {
+                if let Some(Ok(cs)) = rec.condition_set(fv.offset_data()) { let v: Vec<String> = cs.conditions().iter().map(|c| match c { Ok(read_fonts::tables::layout::Condition::Format1AxisRange(c)) => format!("axis{} [{}, {}]", c.axis_index(), c.filter_range_min_value().to_f32(), c.filter_range_max_value().to_f32()), _ => "?".into() }).collect(); print!(" condset {v:?}"); } else { print!(" condset <none>"); }
                 if let Some(Ok(subst)) = rec.feature_table_substitution(fv.offset_data()) {
                     let v: Vec<_> = subst.substitutions().iter().map(|s| (s.feature_index(), s.alternate_feature(subst.offset_data()).map(|f| f.lookup_list_indices().iter().map(|i| i.get()).collect::<Vec<_>>()).unwrap_or_default())).collect();
                     print!(" fv-subst {v:?}");
@@ -18,5 +19,7 @@ fn main() {
             }
         }
         println!();
+        let ll = gsub.lookup_list().unwrap();
+        for (i, l) in ll.lookups().iter().enumerate() { if let Ok(read_fonts::tables::gsub::SubstitutionLookup::Single(l)) = l { for st in l.subtables().iter().flatten() { match st { read_fonts::tables::gsub::SingleSubst::Format1(s) => println!("  lookup {i}: fmt1 cov {:?} delta {}", s.coverage().unwrap().iter().collect::<Vec<_>>(), s.delta_glyph_id()), read_fonts::tables::gsub::SingleSubst::Format2(s) => println!("  lookup {i}: fmt2 cov {:?} -> {:?}", s.coverage().unwrap().iter().collect::<Vec<_>>(), s.substitute_glyph_ids()) } } } }
     }
 }
